@@ -320,9 +320,9 @@ func (r *recorder) recordIncomingRTCP(latestStats internalStats, incoming *incom
 				latestStats.OutboundRTPStreamStats.NACKCount++
 			}
 		case *rtcp.FullIntraRequest:
-			if pkt.MediaSSRC == r.ssrc {
-				latestStats.OutboundRTPStreamStats.FIRCount++
-			}
+			// RFC 5104 4.3.1.2: the media source SSRC of a FIR is unused and set to 0, the
+			// addressed senders are listed in the FCI entries, which DestinationSSRC returns.
+			latestStats.OutboundRTPStreamStats.FIRCount++
 		case *rtcp.PictureLossIndication:
 			if pkt.MediaSSRC == r.ssrc {
 				latestStats.OutboundRTPStreamStats.PLICount++
